@@ -427,9 +427,17 @@ def Statement_initbindings_values_td : Prop :=
   ∀ (n : Nat) (g : List Triple) (κ : Row n) (pv : List (Fin n)) (ts0 : List (TP n)) (tails : List (Tail n)),
     (∀ v, κ v ≠ none → v ∈ bgpVars ts0) → (evalInitT g κ pv ts0 tails).Perm (evalValuesT g κ pv ts0 tails)
 
-/-- proved when every join of the tree is evaluated lazily (`tailsLazy`: any number of OPTIONAL tails, at most one
-    UNION tail — a second one is joined by `_join`, which the proof does not cover; no counterexample is known and
-    the `init` / `td` streams test it) -/
+theorem initbindings_values_td : Statement_initbindings_values_td := by
+  intro n g κ pv ts0 tails h
+  have c := SeedClaim.allTails (ds := { dflt := graphStore g, named := [] }) tails (.bgp ts0)
+    (SeedClaim.bgp _ g κ ts0 h)
+  simp only [evalInitT, evalValuesT, evalSelectTD, buildT]
+  rw [values_join_eq_filter _ _ κ _ c.binds]
+  exact c.seed.map _
+
+/-- the first version of the proof: every join of the tree evaluated lazily (`tailsLazy`: any number of OPTIONAL
+    tails, at most one UNION tail); superseded by `initbindings_values_td`, which also covers UNION tails joined by
+    `_join` (`SeedClaim.uniStrict`) -/
 theorem initbindings_values_td_partial :
     ∀ (n : Nat) (g : List Triple) (κ : Row n) (pv : List (Fin n)) (ts0 : List (TP n)) (tails : List (Tail n)),
       tailsLazy true tails = true → (∀ v, κ v ≠ none → v ∈ bgpVars ts0) →
@@ -533,7 +541,7 @@ example :
     let κ : Row 4 := Row.empty.set 0 1
     let tails : List (Tail 4) := [.opt [(.var 0, .const 11, .var 2)] (some (.bound 2)),
                                   .uni [(.var 1, .const 12, .var 3)] [(.var 1, .const 13, .var 3)]]
-    tailsLazy true tails = true ∧
+    (∀ v, κ v ≠ none → v ∈ bgpVars [((.var 0, .const 10, .var 1) : TP 4)]) ∧ tailsLazy true tails = true ∧
       showRows (evalInitT g κ [0, 1, 2, 3] [(.var 0, .const 10, .var 1)] tails) = [[some 1, some 2, some 5, some 6]] ∧
       showRows (evalValuesT g κ [0, 1, 2, 3] [(.var 0, .const 10, .var 1)] tails) = [[some 1, some 2, some 5, some 6]] := by
   decide
